@@ -22,10 +22,16 @@ KIND_ERRORS = {
 
 # errors that apply where an exact periodic distance between arbitrary points is required (not for short bonds / small radii)
 STRICT_ERRORS = {
+    'nonperiodic_distance': 'a plain Cartesian distance between two positions is used where the periodic (minimum-image) distance is required: '
+                            'pairs that are close across a cell face are seen as far apart',
     'cw_to_cart': 'a hand-rolled minimum image (fractional difference rounded component by component) is converted to Cartesian and '
                   'used as a periodic distance: in a skewed cell the componentwise-nearest image is not the nearest image',
 }
 KIND_ERRORS.update({
+    'wrong_convention': 'the row-vector lattice matrix is applied from the left (M @ v): Cartesian coordinates are v @ M = M^T v; the result is '
+                        'wrong in every cell whose matrix is not symmetric (hexagonal, monoclinic, triclinic, rotated)',
+    'ortho_assumption': 'fractional components are scaled by the cell lengths a, b, c: that is the Cartesian vector only in orthogonal cells',
+    'abs_of_inverse_fft': 'the magnitude instead of the real part of an inverse Fourier transform is used: negative correlations change sign',
     'wrong_metric': 'the metric tensor is built as M^T M from the row-vector lattice matrix (it is M M^T): lengths are wrong in every '
                     'cell whose matrix is not symmetric (triclinic, rotated)',
     'latmat_colnorm': 'column norms of the row-vector lattice matrix are used as cell lengths (they are the row norms): wrong for every '
